@@ -405,7 +405,7 @@ class C02(Check):
     design_ref = 'DESIGN.md 3.1'
     runs = {'quick': 5000, 'thorough': 120000}
     shrink_lists = (('ops',), ('config', 'mws'))
-    hashseeds = {'quick': ['1:O', 2], 'thorough': ['1:O', 2, 3, '4:O']}
+    hashseeds = {'quick': ['1:OA', 2], 'thorough': ['1:OA', 2, 3, '4:OA']}
     hashseed_sample = {'quick': 300, 'thorough': 3000}    # the property is quantified over the hash seed
     rule = ('resolvable-by-construction injection stacks (0-4 middlewares at app/route level, any phases, signatures mixing '
             'required/defaulted/keyword-only parameters over URL bindings (str/int/float, repeated, optional, optional/repeated with a converter; values incl. 0, 0.0, absent, empty), resources, built-ins, provides; '
